@@ -29,6 +29,7 @@ TReset ==
   /\ l' = l + 1 /\ drift' = FALSE /\ driftAt' = 0 /\ tno' = Ev.t
 
 C_Accept == IsEv("Accept") /\ Accept /\ l' = l + 1
+C_AcceptRefused == IsEv("AcceptRefused") /\ AcceptRefused /\ l' = l + 1
 C_Scan ==
   /\ IsEv("Scan")
   /\ Ev.tainted = (disk.k = "rec" /\ disk.conn = "creds")
@@ -40,12 +41,12 @@ C_Attempt ==
   /\ LET src == IF mem.k = "rec" THEN mem ELSE Reloaded(disk) IN
        /\ phase = "queued"
        /\ Ev.m = src.m /\ ToSet(Ev.rcpts) = src.pending
-  /\ Attempt(ToSet(Trace[l + 1].d))
+  /\ Attempt(ToSet(Trace[l + 1].d), ToSet(Trace[l + 1].p))
   /\ l' = l + 2
 C_Restart == IsEv("Restart") /\ Restart /\ l' = l + 1
 C_End == IsEv("End") /\ phase = "done" /\ Emit /\ l' = l + 1
 
-Conform == C_Accept \/ C_Scan \/ C_Attempt \/ C_Restart \/ C_End
+Conform == C_Accept \/ C_AcceptRefused \/ C_Scan \/ C_Attempt \/ C_Restart \/ C_End
 
 C_Step ==
   /\ ~drift /\ Conform
@@ -55,7 +56,7 @@ C_Step ==
 ObsApply(o, e) ==
   CASE e.e = "Accept"    -> ObsAccept(o, msg, Rcpts)
     [] e.e = "Hand"      -> ObsHand(o, e.m, ToSet(e.rcpts))
-    [] e.e = "Delivered" -> ObsDelivered(o, ToSet(e.d))
+    [] e.e = "Delivered" -> ObsDelivered(o, ToSet(e.d) \cup ToSet(e.p))
     [] e.e = "Scan"      -> ObsScan(o, e.tainted)
     [] OTHER -> o
 
